@@ -45,7 +45,7 @@ CHECKS = {
    note="In-process sessions fed one line at a time (within one connection the real serve loop is sequential as well); polling order between forwarding tasks is tokio's FIFO and not enumerated; handshake messages are not requests.",
    technique="explicit-state model checking of the real protocol handler + core task (BFS over line sequences of two sessions, snapshot de-duplication, protocol-table reference)"),
  "C17": dict(cat="model_checking", engine="wbmc-core/tree", ref="DESIGN.md §3 C17",
-   text="Stateless enumeration of all sequences (depth 2 quick / 3 thorough) of adversary lines - every request kind with valid, invalid and absurd arguments (10 kB and 64-level keys, u64::MAX ids/versions, negative numbers), malformed/undecodable lines, unknown variants - interleaved with witness requests and followed by a fixed witness script; the harness is built with debug assertions and overflow checks: the core task must stay alive, undecodable lines must end only the offending session, the witness must get exactly the reference's answers.",
+   text="Stateless enumeration of all sequences (depth 2 quick / 3 thorough) of adversary lines - every request kind with valid, invalid and absurd arguments (10 kB and 64-level keys, u64::MAX ids/versions, negative numbers), malformed/undecodable lines, unknown variants - interleaved with witness requests and followed by a fixed witness script, plus 17 request kinds x 26 key shapes at the edges of the server's special cases (every length of the $SYS/clients/<id>/... guard for the own and another client, empty segments, wildcards in every position), singly (quick) and in pairs (thorough); the harness is built with debug assertions and overflow checks: the core task must stay alive, undecodable lines must end only the offending session, the witness must get exactly the reference's answers.",
    note="'All byte lines' beyond the alphabet would be fuzzing (another family); the alphabet and depth are stated in the evidence.",
    technique="stateless bounded-exhaustive exploration of the real protocol handler + core task (all line sequences up to depth 2-3, witness-script oracle)"),
  "C09": dict(cat="exploration", engine="wbmc-core/persist", ref="DESIGN.md §3 C09",
@@ -81,11 +81,11 @@ CHECKS = {
    note="redb's transaction atomicity/durability is trusted (process-crash model at transaction granularity); syscall-level crash points inside a commit are not enumerated.",
    technique="bounded-exhaustive exploration of writer batchings and stop points on the real ReDB persistence path (prefix-consistency oracle)"),
  "C20": dict(cat="model_checking", engine="wbmc-core/sched", ref="DESIGN.md §3 C20",
-   text="Schedule exploration of the real client library over its unix transport against the real serve loop and a core task that processes a request only when the explorer grants a permit: every interleaving of 'task i submits its next call' and 'server processes the next queued request' for 2-3 tasks on cloned handles with 2-3 calls each on colliding keys (explored to the end); each call must resolve with the reference's answer to that very call (typed results), never earlier; racing update() calls must not lose an acknowledged increment; the send buffer is driven on a paused clock through all sequences of set_later/publish_later/advance (each key's latest buffered value is sent once per kind, nothing else is sent); all unsubscribe variants (value, pattern, ls x awaited, fire-and-forget) must remove the server-side subscription and stop the events.",
+   text="Schedule exploration of the real client library over its unix transport against the real serve loop and a core task that processes a request only when the explorer grants a permit: every interleaving of 'task i submits its next call' and 'server processes the next queued request' for 2-3 tasks on cloned handles with 2-3 calls each on colliding keys (explored to the end); each call must resolve with the reference's answer to that very call (typed results), never earlier; racing update() calls must not lose an acknowledged increment; the send buffer is driven on a paused clock through all sequences of set_later/publish_later/advance (each key's latest buffered value is sent once per kind, nothing else is sent), once with a server that answers at once and once with a gated server that only moves at explicit steps (values handed in while an earlier set/publish of the same key is unanswered); all unsubscribe variants (value, pattern, ls x awaited, fire-and-forget) must remove the server-side subscription and stop the events.",
    note="One stimulus outstanding at a time (paused current-thread runtime, fixed number of yields, never parking); a real unix socket lives inside the runtime, guarded by the explorer's determinism self-check; the in-process 'local' transport is not covered.",
    technique="deviation-free exhaustive schedule exploration of the real client library against the real server session (gated core task), explicit-state de-duplication"),
  "C19": dict(cat="model_checking", engine="wbmc-orch/tree", ref="DESIGN.md §3 C19",
-   text="Stateless enumeration, for every cluster size 1..5 (quick) / 1..7 (thorough) and every configured quorum (none, 1..n), of all sequences of scripted peer behaviours up to depth 3-5 (vote from a new / duplicate / unknown node, competing vote request of higher / equal / lower priority, from a stranger, heartbeat request of a member / stranger, heartbeat response, election timeout, silence) plus the timeout-then-votes paths up to quorum+2, against the real elect_leader on a paused clock with real loopback UDP sockets: 'leader' only with votes of at least quorum-1 distinct configured peers since the node's latest vote-request broadcast; 'follower' only of a node that announced itself, and follow() starts nothing for a node that is not configured; quorum_sanity_check exhaustively for 1..7 nodes x quorum none/0..8.",
+   text="Stateless enumeration, for every cluster size 1..5 (quick) / 1..7 (thorough) and every configured quorum (none, 1..n), of all sequences of scripted peer behaviours up to depth 3-5 (vote from a new / duplicate / unknown node, competing vote request of higher / equal / lower priority, from a stranger, heartbeat request of a member / stranger, heartbeat response, election timeout, silence) plus the timeout-then-votes paths up to quorum+2 and the election-round paths (timeout, votes, expiry of the round, timeout, votes ...) up to depth 7-9, against the real elect_leader on a paused clock with real loopback UDP sockets: 'leader' only with votes of at least quorum-1 distinct configured peers since the node's latest vote-request broadcast; 'follower' only of a node that announced itself, and follow() starts nothing for a node that is not configured; quorum_sanity_check exhaustively for 1..7 nodes x quorum none/0..8.",
    note="Safety only; the randomized election timeout is crossed by advancing until the vote requests are observed; lead() and the server process are not started (run_main turns the Leader outcome into lead() unconditionally).",
    technique="stateless bounded-exhaustive exploration of the real election code against scripted peers (paused clock, loopback UDP), all configurations up to 5-7 nodes"),
 }
